@@ -49,6 +49,16 @@ pub fn run(rep: &mut Report, tier: &str, seed: u64) {
         let base = python::gen_source(&mut r);
         let faults = if ci % 5 == 0 { 0 } else { r.range(1, 6) };
         let src = python::inject_faults(&mut r, &base, faults);
+        // a small corpus runs first: an ERROR node immediately followed (no byte in between) by a zero-width MISSING node,
+        // a MISSING node right before an ERROR node, adjacent ERROR nodes
+        const ADJACENT: &[&str] = &[
+            "def f():\n    for i\n: in range(3): print(i)\n",
+            "def f():\n    \u{e9} = 1\n    if x\n,:\n        return 1\n",
+            "for i in range(3:{): print(i)\n",
+            "x = (1 2\ny = [3 4\n",
+            "class A(:\n    def g(self:\n        pass\n",
+        ];
+        let src = if ci < ADJACENT.len() { ADJACENT[ci].to_string() } else { src };
         let tree = parse_python(&src);
         let info = TreeInfo::new(&tree);
         let mut exp = Vec::new();
